@@ -67,66 +67,75 @@ fn c25_pair() {
     kani::cover!(a.offset + range_size(&a) == b.offset, "C25.cover.adjacent");
 }
 
-/// `verify_global_specs` on every slice of up to 3 well-formed global specs: Err iff (total size exceeds the
-/// global bound) or (two *different* specs overlap). The pair predicate is the quantified part (c25_pair).
-/// The contract of `verify_no_overlap_contiguous` as proved by `c25_pair` (Err <=> ranges intersect), used to
-/// check `verify_global_specs` modularly (io::Result is not `Arbitrary`, so `stub_verified` cannot be used).
-fn pair_contract(a: &SideMetadataSpec, b: &SideMetadataSpec) -> std::io::Result<()> {
-    if overlap(a, b) {
-        Err(std::io::Error::from(std::io::ErrorKind::InvalidInput))
-    } else {
-        Ok(())
-    }
-}
-
-fn check_global_specs(maxn: usize) {
+/// `verify_global_specs_total_size` on every slice of up to 3 specs: Err iff the summed range sizes exceed
+/// 2^(47 - LOG_GLOBAL_SIDE_METADATA_WORST_CASE_RATIO) (= 2^46 on 64-bit).
+#[kani::proof]
+#[kani::unwind(5)]
+#[kani::stub(alloc::fmt::format, stub_format)]
+fn c25_total_size() {
     let specs = [any_wf_spec("a", true), any_wf_spec("b", true), any_wf_spec("c", true)];
     let n: usize = kani::any();
-    kani::assume(n <= maxn);
-    unsafe { SYM_BASE = kani::any() };
-    kani::assume(unsafe { SYM_BASE } <= (1usize << 62));
-    let sl = &specs[..n];
-    let r = sn::verify_global_specs(sl);
+    kani::assume(n <= 3);
+    let r = sn::verify_global_specs_total_size(&specs[..n]);
     let is_err = r.is_err();
     std::mem::forget(r);
     let mut total = 0usize;
-    let mut any_overlap = false;
+    if n >= 1 { total += range_size(&specs[0]); }
+    if n >= 2 { total += range_size(&specs[1]); }
+    if n >= 3 { total += range_size(&specs[2]); }
+    assert!(is_err == (total > (1usize << (LOG_ARCH - 1))), "C25.total_size.err_iff_too_big");
+    kani::cover!(n == 3 && is_err && range_size(&specs[0]) < (1usize << 45), "C25.cover.sum_too_big");
+    kani::cover!(n == 3 && !is_err, "C25.cover.sum_fits");
+}
+
+// Modular composition step: `verify_global_specs` against the *contracts* of its two callees.
+// io::Result is not `Arbitrary`, so `stub_verified` cannot be used; the callees are replaced by stubs that
+// return Err exactly when an arbitrary (symbolic) predicate table says so. c25_total_size and c25_pair prove
+// that the real callees compute the predicates "sum too big" and "ranges intersect".
+static mut TOO_BIG: bool = false;
+static mut OV: [[bool; 3]; 3] = [[false; 3]; 3];
+fn idx(s: &SideMetadataSpec) -> usize {
+    (s.name.as_bytes()[0] - b'a') as usize
+}
+fn total_contract(_g: &[SideMetadataSpec]) -> std::io::Result<()> {
+    if unsafe { TOO_BIG } { Err(std::io::Error::from(std::io::ErrorKind::InvalidInput)) } else { Ok(()) }
+}
+fn pair_contract(a: &SideMetadataSpec, b: &SideMetadataSpec) -> std::io::Result<()> {
+    if unsafe { OV[idx(a)][idx(b)] } { Err(std::io::Error::from(std::io::ErrorKind::InvalidInput)) } else { Ok(()) }
+}
+
+/// Err iff (total too big) or (some ordered pair of *different* specs of the slice is reported overlapping).
+#[kani::proof]
+#[kani::unwind(5)]
+#[kani::stub(mmtk::util::metadata::side_metadata::sanity::verify_global_specs_total_size, total_contract)]
+#[kani::stub(mmtk::util::metadata::side_metadata::sanity::verify_no_overlap_contiguous, pair_contract)]
+fn c25_global_specs() {
+    let specs = [any_wf_spec("a", true), any_wf_spec("b", true), any_wf_spec("c", true)];
+    let n: usize = kani::any();
+    kani::assume(n <= 3);
+    unsafe {
+        TOO_BIG = kani::any();
+        OV = kani::any();
+    }
+    let r = sn::verify_global_specs(&specs[..n]);
+    let is_err = r.is_err();
+    std::mem::forget(r);
+    let mut any = false;
     let mut i = 0;
     while i < n {
-        total += range_size(&specs[i]);
         let mut j = 0;
         while j < n {
-            if i != j && overlap(&specs[i], &specs[j]) {
-                any_overlap = true;
+            if specs[i] != specs[j] && unsafe { OV[i][j] } {
+                any = true;
             }
             j += 1;
         }
         i += 1;
     }
-    // LOG_GLOBAL_SIDE_METADATA_WORST_CASE_RATIO = 1 on 64-bit
-    let too_big = total > (1usize << (LOG_ARCH - 1));
-    assert!(is_err == (too_big || any_overlap), "C25.global_specs.err_iff_too_big_or_overlap");
-    kani::cover!(n == maxn && !is_err, "C25.cover.max_len_ok");
-    kani::cover!(n == maxn && !too_big && is_err, "C25.cover.max_len_overlap");
-    kani::cover!(too_big && !any_overlap, "C25.cover.too_big_only");
-}
-
-#[kani::proof]
-#[kani::unwind(8)]
-#[kani::stub(mmtk::util::metadata::side_metadata::global_side_metadata_base_address, stub_sym_base)]
-#[kani::stub(alloc::fmt::format, stub_format)]
-#[kani::stub(mmtk::util::metadata::side_metadata::sanity::verify_no_overlap_contiguous, pair_contract)]
-fn c25_global_specs() {
-    check_global_specs(2);
-}
-
-#[kani::proof]
-#[kani::unwind(8)]
-#[kani::stub(mmtk::util::metadata::side_metadata::global_side_metadata_base_address, stub_sym_base)]
-#[kani::stub(alloc::fmt::format, stub_format)]
-#[kani::stub(mmtk::util::metadata::side_metadata::sanity::verify_no_overlap_contiguous, pair_contract)]
-fn c25_global_specs_deep() {
-    check_global_specs(3);
+    assert!(is_err == (unsafe { TOO_BIG } || any), "C25.global_specs.err_iff_too_big_or_some_pair_overlaps");
+    kani::cover!(n == 3 && !is_err, "C25.cover.three_ok");
+    kani::cover!(n == 3 && is_err && !unsafe { TOO_BIG }, "C25.cover.three_overlap");
+    kani::cover!(n == 2 && unsafe { OV[1][0] } && !unsafe { OV[0][1] } && is_err, "C25.cover.asymmetric_report_still_rejected");
 }
 
 /// Per-spec size limit for local specs (64-bit): Err iff some spec's range exceeds 2^(47-1).
